@@ -85,6 +85,38 @@ pub fn eds_op(op: &str, a: &[&str]) -> R {
                 Err(_) => Err(Fail::Err),
             }
         }
+        // the hazmat functions instantiated with a SECOND 64-byte digest, `TaggedSha512` = SHA-512 with the tag "alt" absorbed first:
+        // which digest a generic helper is instantiated with is observable only with a context digest other than SHA-512
+        "raw_sign_alt" => {
+            arity(a, 3)?;
+            let esk = ExpandedSecretKey::from_bytes(&hx::<64>(a[0])?);
+            let msg = unhex(a[1])?;
+            let vk = vk_or_err(&hx::<32>(a[2])?)?;
+            ok_hex(&hazmat::raw_sign::<TaggedSha512>(&esk, &msg, &vk).to_bytes())
+        }
+        "raw_verify_alt" => {
+            arity(a, 3)?;
+            let vk = vk_or_err(&hx::<32>(a[0])?)?;
+            let msg = unhex(a[1])?;
+            let sig = Signature::from_bytes(&hx::<64>(a[2])?);
+            unit(hazmat::raw_verify::<TaggedSha512>(&vk, &msg, &sig))
+        }
+        "raw_sign_ph_alt" => {
+            arity(a, 4)?;
+            let esk = ExpandedSecretKey::from_bytes(&hx::<64>(a[0])?);
+            let msg = unhex(a[1])?;
+            let vk = vk_or_err(&hx::<32>(a[2])?)?;
+            let ctx = ctx_arg(a[3])?;
+            sig_res(hazmat::raw_sign_prehashed::<TaggedSha512, Sha512>(&esk, Sha512::new().chain_update(&msg), &vk, ctx.as_deref()))
+        }
+        "raw_verify_ph_alt" => {
+            arity(a, 4)?;
+            let vk = vk_or_err(&hx::<32>(a[0])?)?;
+            let msg = unhex(a[1])?;
+            let ctx = ctx_arg(a[2])?;
+            let sig = Signature::from_bytes(&hx::<64>(a[3])?);
+            unit(hazmat::raw_verify_prehashed::<TaggedSha512, Sha512>(&vk, Sha512::new().chain_update(&msg), ctx.as_deref(), &sig))
+        }
         "raw_sign" => {
             arity(a, 3)?;
             let esk = ExpandedSecretKey::from_bytes(&hx::<64>(a[0])?);
@@ -220,4 +252,44 @@ pub fn eds_op(op: &str, a: &[&str]) -> R {
         }
         _ => Err(BADREQ),
     }
+}
+
+
+/// SHA-512 with the tag `b"alt"` absorbed first: a second `Digest<OutputSize = U64>` for the `CtxDigest` parameter of the hazmat
+/// functions (`H'(m) = SHA-512("alt" || m)`).
+#[derive(Clone)]
+pub struct TaggedSha512(Sha512);
+
+impl Default for TaggedSha512 {
+    fn default() -> Self {
+        let mut h = Sha512::new();
+        Digest::update(&mut h, b"alt");
+        TaggedSha512(h)
+    }
+}
+
+mod tagged_impl {
+    use super::TaggedSha512;
+    use curve25519_dalek::digest::consts::U64;
+    use curve25519_dalek::digest::{Digest, FixedOutput, HashMarker, Output, OutputSizeUser, Reset, Update};
+
+    impl OutputSizeUser for TaggedSha512 {
+        type OutputSize = U64;
+    }
+    impl Update for TaggedSha512 {
+        fn update(&mut self, data: &[u8]) {
+            Digest::update(&mut self.0, data);
+        }
+    }
+    impl FixedOutput for TaggedSha512 {
+        fn finalize_into(self, out: &mut Output<Self>) {
+            out.copy_from_slice(&self.0.finalize());
+        }
+    }
+    impl Reset for TaggedSha512 {
+        fn reset(&mut self) {
+            *self = TaggedSha512::default();
+        }
+    }
+    impl HashMarker for TaggedSha512 {}
 }
